@@ -55,6 +55,7 @@ def explore(prog, name, budget=300000):
                         limits.add((c if da["op"] == "mul" else 2 ** c, b["v"]))
     outs = []
     seen = set()
+    fam = dest_family(fn, fn.pnames[d]["id"])
     for (rv, st, path) in res:
         dirty, c1, cf, nul = st.pl[:4]
         wrote, slack = st.pl[7], st.pl[8]
@@ -114,12 +115,44 @@ def explore(prog, name, budget=300000):
             err = True if rv[1] == "null" else (False if eng.decide(("cmp", "eq", eng.as_lin(rv), Lin.const(0)), facts) is False else None)
         line = exit_line(fn, path)
         msg = exit_message(fn, path)
-        key = (d_, err, dirty, c1, cf, nul, tuple(ex), msg, wrote, slack, ret_at_term, term is not None, src_null)
+        via = via_callees(fn, path, fam)
+        key = (d_, err, dirty, c1, cf, nul, tuple(ex), msg, wrote, slack, ret_at_term, term is not None, src_null, via)
         if key in seen:
             continue
         seen.add(key)
-        outs.append(dict(ret=d_, err=err, dirty=dirty, clr_first=c1, clr_full=cf, nul=nul, wrote=wrote, slack=slack, ret_at_term=ret_at_term, has_term=term is not None, src_null=src_null, exempt=ex, line=line, msg=msg, path=path[-10:] if path else None))
+        outs.append(dict(ret=d_, err=err, dirty=dirty, clr_first=c1, clr_full=cf, nul=nul, wrote=wrote, slack=slack, ret_at_term=ret_at_term, has_term=term is not None, src_null=src_null, exempt=ex, line=line, msg=msg, via=via, path=path[-10:] if path else None))
     return dict(outcomes=outs, n_paths=len(res), states=eng.nstates, conv=conv, file=fn.file, unit=plugin.unit, precision=eng.precision)
+
+
+def dest_family(fn, dest_id):
+    """SSA pointers derived from the dest parameter (gep / bitcast / phi)"""
+    fam = {dest_id}
+    changed = True
+    while changed:
+        changed = False
+        for i in fn.insts():
+            if "id" not in i or i["id"] in fam or not i.get("ty", "").endswith("*"):
+                continue
+            srcs = [i["base"]] if i["op"] == "getelementptr" else ([i["ops"][0]] if i["op"] == "bitcast" else ([x["v"] for x in i["incoming"]] if i["op"] == "phi" else []))
+            if any(o.get("k") == "v" and o["id"] in fam for o in srcs):
+                fam.add(i["id"]); changed = True
+    return fam
+
+
+def via_callees(fn, path, fam):
+    """library / libc routines (not the constraint handlers and clearing helpers) that were handed a pointer into dest on this path: tells exits apart
+    that return the same value with the same flags -- 'the nested copy refused' from 'no copy was attempted'"""
+    out = set()
+    for bb in (path or []):
+        for i in fn.blocks[bb]["insts"]:
+            if i["op"] not in ("call", "invoke"):
+                continue
+            cal = i.get("callee") or ""
+            if not cal or cal.startswith("llvm.") or "constraint_handler" in cal or cal.startswith(("handle_", "mem_prim_")) or cal in ("memset", "wmemset"):
+                continue
+            if any(a.get("k") == "v" and a["id"] in fam for a in i.get("args", ())):
+                out.add(api.base_name(cal))
+    return ",".join(sorted(out))
 
 
 def anchored_writers(prog, pid, extra_exclude=()):
